@@ -53,6 +53,7 @@ import (
 	"sort"
 	"strconv"
 	"strings"
+	"sync"
 	"sync/atomic"
 	"testing"
 	"time"
@@ -510,6 +511,7 @@ type c13Case struct {
 	Schedule []string `json:"schedule,omitempty"` // authoritative when present: actor to move, "r<i>" or "L<j>"
 	Picks    []int    `json:"picks,omitempty"`    // otherwise: index into the list of enabled moves (mod its length); then first-enabled
 	Reduce   bool     `json:"reduce,omitempty"`   // requests move in index order within each segment between reload events
+	Secrets  []int    `json:"secrets,omitempty"`  // Secrets[i] = j < i: request i is a resend of request j (same shared secret)
 	Sym      bool     `json:"sym,omitempty"`      // requests of the same kind are started in index order
 }
 
@@ -535,6 +537,7 @@ type c13Actor struct {
 	polls    bool   // "blocked" means: sleeps in a wait loop of the registrar, not in a lock wait
 
 	// request
+	secret  []byte
 	req     *pb.C2SWrapper
 	resp    *pb.RegistrationResponse
 	err     error
@@ -559,7 +562,7 @@ type c13Sched struct {
 	p             *RegProcessor
 	reqs          []*c13Actor
 	reloads       []*c13Actor
-	bySeed        map[string]*c13Actor
+	byGid         sync.Map // goroutine id -> request actor (requests may share a shared secret, so the seed does not identify them)
 	ev            chan c13Ev
 	abandon       chan struct{}
 	abandoned     bool
@@ -586,7 +589,10 @@ type c13Wrap struct {
 }
 
 func (w *c13Wrap) Select(seed []byte, gen uint, ver uint, v6 bool) (*phantoms.PhantomIP, error) {
-	a := w.s.bySeed[string(seed)] // read-only after set-up
+	var a *c13Actor
+	if x, ok := w.s.byGid.Load(c13Gid()); ok {
+		a = x.(*c13Actor)
+	}
 	fam := "4"
 	if v6 {
 		fam = "6"
@@ -619,16 +625,20 @@ func (s *c13Sched) park(a *c13Actor, pt string) {
 }
 
 func c13NewSched(e *c13Env, c c13Case) (*c13Sched, error) {
-	s := &c13Sched{e: e, bySeed: map[string]*c13Actor{}, ev: make(chan c13Ev, 1024), abandon: make(chan struct{}),
+	s := &c13Sched{e: e, ev: make(chan c13Ev, 1024), abandon: make(chan struct{}),
 		segLast: -1, nextNew: 1, classes: map[string]bool{}, empty: map[int]bool{}, dead: map[int]bool{}}
 	for i, k := range c.Reqs {
 		if _, ok := c13Kinds[k]; !ok {
 			return nil, fmt.Errorf("bad request kind %q", k)
 		}
-		sec := c13Secret("sched", i, 0)
-		a := &c13Actor{name: "r" + strconv.Itoa(i), idx: i, kind: k, resume: make(chan struct{}, 1), req: c13Request(sec, k)}
+		sid := i
+		if i < len(c.Secrets) && c.Secrets[i] >= 0 && c.Secrets[i] < i {
+			sid = c.Secrets[i] // a resend: the same shared secret as an earlier request
+			s.classes["resend-inside-schedule"] = true
+		}
+		sec := c13Secret("sched", sid, 0)
+		a := &c13Actor{name: "r" + strconv.Itoa(i), idx: i, kind: k, resume: make(chan struct{}, 1), req: c13Request(sec, k), secret: sec}
 		s.reqs = append(s.reqs, a)
-		s.bySeed[c13Seed(sec)] = a
 		s.classes[k] = true
 	}
 	nNew := 0
@@ -753,13 +763,16 @@ func (s *c13Sched) move(a *c13Actor) {
 		a.state = c13Running
 		s.segLast = a.idx
 		go func() {
-			s.ev <- c13Ev{a: a, typ: 0, gid: c13Gid()}
+			gid := c13Gid()
+			s.ev <- c13Ev{a: a, typ: 0, gid: gid}
 			defer func() {
 				if r := recover(); r != nil {
 					a.pan = fmt.Sprint(r)
 				}
 				s.ev <- c13Ev{a: a, typ: 2}
 			}()
+			s.byGid.Store(gid, a)
+			defer s.byGid.Delete(gid)
 			a.resp, a.err = s.p.RegisterBidirectional(a.req, pb.RegistrationSource_BidirectionalAPI, net.ParseIP("198.51.100.9").To4())
 		}()
 	default:
@@ -1328,6 +1341,42 @@ func c13Run(e *c13Env, c c13Case) (res c13Result) {
 		}
 		return true
 	}
+	// Every registration is delivered once more (clients re-send, with the same shared secret). All
+	// reloads have returned, so the answer must come wholly from the set that is installed now.
+	for _, a := range s.reqs {
+		if a.state != c13Done || a.pan != "" {
+			continue
+		}
+		var resp *pb.RegistrationResponse
+		var err error
+		pan, ok := after("the re-sent registration "+a.name, func() {
+			resp, err = s.p.RegisterBidirectional(c13Request(a.secret, a.kind), pb.RegistrationSource_BidirectionalAPI, net.ParseIP("198.51.100.9").To4())
+		})
+		if !ok {
+			return
+		}
+		if pan != "" {
+			first("request-panic", fmt.Sprintf("%s[%s] re-sent after the schedule panicked: %s", a.name, a.kind, pan))
+			return
+		}
+		window := []int{s.cur}
+		if s.empty[s.cur] {
+			window = []int{s.cur + c13EmptyBase}
+		}
+		set, refused, k, m := e.c13Judge(a.kind, resp, err, window)
+		if k != "" {
+			first(k, fmt.Sprintf("%s[%s] re-sent (same shared secret) after every reload had returned: %s", a.name, a.kind, m))
+			return
+		}
+		s.classes["resent-after-schedule"] = true
+		if refused || (s.empty[s.cur] && set == s.lastGood) {
+			continue
+		}
+		if set != s.cur {
+			first("stale-set", fmt.Sprintf("%s[%s] re-sent (same shared secret) after every reload had returned was answered from set %d although set %d is installed (the first delivery overlapped a reload)", a.name, a.kind, set, s.cur))
+			return
+		}
+	}
 	what := "a successful reload is not in effect"
 	if len(s.reloads) > 0 {
 		if last := s.reloads[len(s.reloads)-1]; last.kind != "new" && !s.empty[last.target] {
@@ -1358,7 +1407,7 @@ func c13Run(e *c13Env, c c13Case) (res c13Result) {
 // c13Check runs a case, records it and reports a violation.
 func c13Check(t vh.Fataler, rec *vh.Rec, e *c13Env, c c13Case) c13Result {
 	res := c13Run(e, c)
-	shown := c13Case{Reqs: c.Reqs, Reloads: c.Reloads, Schedule: res.Trace, Reduce: c.Reduce, Sym: c.Sym}
+	shown := c13Case{Reqs: c.Reqs, Reloads: c.Reloads, Schedule: res.Trace, Reduce: c.Reduce, Sym: c.Sym, Secrets: c.Secrets}
 	if res.Harness != "" {
 		t.Fatalf("harness problem: %s (case %+v)", res.Harness, shown)
 		return res
@@ -1631,6 +1680,14 @@ func c13Gen(rt *rapid.T) c13Case {
 	}
 	for i := 0; i < m; i++ {
 		c.Reloads = append(c.Reloads, rapid.SampledFrom([]string{"new", "new", "new", "new", "missing", "garbage", "empty", "nonet", "emptynet", "trunc"}).Draw(rt, "reload"))
+	}
+	for i := 0; i < k; i++ {
+		// one request in three is a resend of an earlier one (same shared secret, any shape)
+		j := -1
+		if i > 0 && rapid.IntRange(0, 2).Draw(rt, "resend") == 0 {
+			j = rapid.IntRange(0, i-1).Draw(rt, "of")
+		}
+		c.Secrets = append(c.Secrets, j)
 	}
 	c.Picks = rapid.SliceOfN(rapid.IntRange(0, 7), 0, 5*k+m).Draw(rt, "picks")
 	return c
